@@ -107,8 +107,16 @@ func init() {
 		Harnesses: []HarnessSpec{
 			{Pkg: "safehtml", Name: "vHarness_C10_escaped", Quick: []ParamRange{{"n", 0, 3}}, Thorough: []ParamRange{{"n", 0, 4}}, Reach: []string{"ran"},
 				Desc: "HTMLEscaped(s) == rune-wise reference; alphabet scan; utf8.ValidString (stdlib SSA)"},
+			{Pkg: "safehtml", Name: "vHarness_C10_placement", Quick: []ParamRange{{"pre", 0, 5}, {"n", 0, 2}}, Thorough: []ParamRange{{"pre", 0, 5}, {"n", 0, 3}}, Reach: []string{"ran"},
+				Desc: "placement: from the data, RCDATA (title, textarea) and quoted attribute-value tokenizer states the escaped text leaves the HTML tokenizer reference in the same state with all counters unchanged"},
 			{Pkg: "safehtml", Name: "vHarness_C10_concat", Quick: []ParamRange{{"na", 0, 3}, {"nb", 0, 3}}, Thorough: []ParamRange{{"na", 0, 6}, {"nb", 0, 6}}, Reach: []string{"ran"},
 				Desc: "HTMLConcat is plain concatenation (0, 1, 2 arguments)"},
+			{Pkg: "safehtml", Name: "vHarness_C10_long", Quick: []ParamRange{{"k", 1021, 1023}, {"n", 3, 3}}, Thorough: []ParamRange{{"k", 1020, 1023}, {"n", 4, 4}}, Reach: []string{"ran"}, MaxVisits: 12000,
+				Desc: "long inputs: 1020..1023 concrete ASCII bytes, then 3 (thorough 4) symbolic bytes, then a concrete tail: the symbolic window straddles offset 1024 (chunked implementations)"},
+			{Pkg: "safehtml", Name: "vHarness_C10_long", Quick: []ParamRange{{"k", 62, 62}, {"n", 3, 3}}, Thorough: []ParamRange{{"k", 4092, 4095}, {"n", 3, 3}}, MaxVisits: 12000,
+				Desc: "the same window at offsets 64 (quick) and 4096 (thorough)"},
+			{Pkg: "safehtml", Name: "vHarness_C10_long", Quick: []ParamRange{{"k", 254, 254}, {"n", 3, 3}}, Thorough: []ParamRange{{"k", 252, 255}, {"n", 3, 3}}, MaxVisits: 12000,
+				Desc: "the same window at offset 256 and, thorough, 60..63 / 508..511 via the other ranges"},
 		},
 		Probes: []ProbeSpec{
 			{Pkg: "safehtml", Name: "vProbe_C10_escaped", NArgs: 1, Alphabet: "a&<>\"'\x00\x01\t\n\x0b\x0c\r\x1f\x7f\x80\x9f\xc2\xef\xb7\x90\xbf\xbe\xf0\xf4\x8f\xed\xa0 ", MaxLen: 8, N: 2000, TestDir: ".",
@@ -121,8 +129,8 @@ func init() {
 			"quick":    "every byte string of length 0..3 (every code point of <= 3 bytes, every invalid pattern of <= 3 bytes, all pairs and triples of shorter runes); HTMLConcat with 0..3 + 0..3 bytes",
 			"thorough": "every byte string of length 0..4 (adds every astral code point incl. plane-end noncharacters and every 4-byte invalid pattern); HTMLConcat with 0..6 + 0..6 bytes",
 		},
-		Outside: []string{"strings longer than the bound (the function is a rune-wise map; that longer inputs add no behaviour is an argument, not part of the solver claim)",
-			"tokenizer-placement clause (checked with the HTML tokenizer reference under C01/C03)", "html.UnescapeString round trip is implied by equality with the reference, not executed"},
+		Outside: []string{"strings longer than the bound other than the padded shapes of vHarness_C10_long (the function is a rune-wise map; that longer inputs add no behaviour is an argument, not part of the solver claim)",
+			"html.UnescapeString round trip is implied by equality with the reference, not executed"},
 		Intrinsics: []string{"html.EscapeString: the five replacements (forks on replacement length)", "range over string / []rune<->string conversions: symbolic UTF-8 codec", "bytes.Buffer"},
 	})
 
@@ -130,6 +138,8 @@ func init() {
 		ID:    "C12",
 		Title: "URLSetSanitized keeps only safe image candidates under the WHATWG srcset parser",
 		Harnesses: []HarnessSpec{
+			{Pkg: "safehtml", Name: "vHarness_C12_three", Quick: []ParamRange{{"n1", 1, 1}, {"n2", 1, 1}, {"m2", 1, 2}, {"n3", 1, 1}, {"m3", 0, 1}}, Thorough: []ParamRange{{"n1", 1, 2}, {"n2", 1, 2}, {"m2", 1, 2}, {"n3", 1, 2}, {"m3", 0, 1}}, Reach: []string{"candidates", "two-candidates"},
+				Desc: "three candidates U1 \" ,\" U2 \" \" D2 \",\" U3 [\" \" D3] with concrete separators and symbolic ASCII contents (an accepted, a dropped and another accepted candidate in one input)"},
 			{Pkg: "safehtml", Name: "vHarness_C12_sanitized", Quick: []ParamRange{{"ascii", 1, 1}, {"n", 0, 5}}, Thorough: []ParamRange{{"ascii", 1, 1}, {"n", 0, 7}}, Reach: []string{"candidates", "innocuous", "two-candidates"},
 				Desc: "re-parse the result with the WHATWG srcset splitter: every candidate URL is one URLSanitized keeps, descriptors number-like, bytes copied in order from the input, never empty"},
 			{Pkg: "safehtml", Name: "vHarness_C12_sanitized", Quick: []ParamRange{{"ascii", 0, 0}, {"n", 0, 3}}, Thorough: []ParamRange{{"ascii", 0, 0}, {"n", 0, 4}},
@@ -240,6 +250,7 @@ func init() {
 		Probes: []ProbeSpec{
 			{Pkg: "safehtml", Name: "vProbe_C16_rule", NArgs: 1, Alphabet: cssAlphabet + "[]=^$|~>", MaxLen: 12, N: 2000, TestDir: ".", Extra: []string{"a[href=\"x\"]", "url(x\"){\"y)", "a:not(.b)", "a\\", "\"a\nb\"", "'\\\n'", "a/*", "[a=']']", "((", ")("}},
 			{Pkg: "safehtml", Name: "vProbe_C16_scan", NArgs: 1, Alphabet: cssAlphabet + "[]=^$|~>", MaxLen: 10, N: 300},
+			{Pkg: "safehtml", Name: "vProbe_C16_fmt", NArgs: 3, Alphabet: "%%%svxXTdc;!(a{\"", MaxLen: 6, N: 1500, Extra: []string{"%", "a%", "%%", "%s%s%s", "%!", "{%s}", "%x%X", "%T"}},
 		},
 		Functions: []string{"safehtml.CSSRule", "safehtml.hasBalancedBrackets", "safehtml.StyleSheet.String", "container/list (stdlib SSA)", "patterns cssStringPattern, invalidCSSSelectorRune and matchingBrackets from the current source"},
 		Bounds: map[string]string{
@@ -346,6 +357,8 @@ func init() {
 				Desc: "the link/href special case under ten rel values"},
 			{Pkg: "template", Name: "vHarness_C04_joinnames", Quick: []ParamRange{{"attr", 0, 1}, {"n", 1, 1}, {"na", 0, 2}, {"nb", 0, 2}}, Thorough: []ParamRange{{"attr", 0, 1}, {"n", 1, 2}, {"na", 0, 2}, {"nb", 0, 2}}, Reach: []string{"joined"},
 				Desc: "conditional names: join of two contexts with symbolic names and accumulated names lists keeps every possible element / attribute name (and the list invariant)"},
+			{Pkg: "template", Name: "vHarness_C04_condnames", Quick: []ParamRange{{"swap", 0, 1}, {"le", 1, 6}, {"la", 2, 6}}, Thorough: []ParamRange{{"swap", 0, 1}, {"le", 1, 8}, {"la", 2, 10}}, Reach: []string{"accepted", "rejected"},
+				Desc: "attribute value with a conditional element name (two symbolic alternatives): accepted => both alternatives are listed for the attribute with the same reviewed class"},
 			{Pkg: "template", Name: "vHarness_C04_voidnames", Quick: []ParamRange{{"v", 0, 3}, {"o", 0, 3}, {"swap", 0, 1}, {"n", 1, 2}}, Reach: []string{"closed"},
 				Desc: "the '>' of a start tag whose name is conditional (a void and a non-void alternative) does not forget the non-void one"},
 			{Pkg: "template", Name: "vHarness_C04_content", Quick: []ParamRange{{"le", 0, 24}}, Thorough: []ParamRange{{"le", 0, 40}}, Reach: []string{"accepted", "rejected"},
@@ -432,6 +445,16 @@ func init() {
 				Desc: "L3: where sanitizerForContext(nudge(c)) accepts an action the tokenizer is in a text or quoted-value state and the sanitized data leaves its state and counters unchanged"},
 			{Pkg: "template", Name: "vHarness_C01_join", Quick: []ParamRange{{"a", 0, 16}, {"b", 0, 16}}, Reach: []string{"joined", "rejected"},
 				Desc: "L4: join(a, b) not an error => the joined context agrees with the tokenizer state of both branches"},
+			{Pkg: "template", Name: "vHarness_C01_range", Quick: []ParamRange{{"prefix", 0, 11}, {"n0", 0, 1}, {"n1", 0, 2}, {"n2", 0, 2}, {"n3", 1, 1}, {"nd", 1, 1}},
+				Thorough: []ParamRange{{"prefix", 0, 11}, {"n0", 0, 2}, {"n1", 0, 2}, {"n2", 0, 2}, {"n3", 0, 2}, {"nd", 1, 2}}, Reach: []string{"accepted", "rejected"}, Eager: true,
+				Desc: "composition over a loop: the real escapeBranch (with its re-entry pass) over P T0 {{range .}}T1 {{.}} T2{{end}} T3 with symbolic ASCII texts; the assembled output for 0, 1 and 2 iterations has the same token stream for an inert and a symbolic data value"},
+			{Pkg: "template", Name: "vHarness_C01_loopexit", Quick: []ParamRange{{"kind", 0, 1}, {"prefix", 0, 5}, {"n0", 0, 0}, {"n1", 0, 3}, {"n2", 0, 1}, {"n3", 0, 1}, {"n4", 0, 0}, {"nd", 1, 1}},
+				Thorough: []ParamRange{{"kind", 0, 1}, {"prefix", 0, 11}, {"n0", 0, 1}, {"n1", 0, 3}, {"n2", 0, 2}, {"n3", 0, 1}, {"n4", 0, 1}, {"nd", 1, 2}}, Reach: []string{"rejected"}, Eager: true,
+				Desc: "loop exits: P T0 {{range .}}T1{{if .}}{{break|continue}}{{end}}T2{{end}} T3 {{.}} T4 - the escaper refuses the node (panic, nothing executed) or the output after an early exit has the same token stream for an inert and a symbolic data value"},
+			{Pkg: "template", Name: "vHarness_C01_shape", Quick: []ParamRange{{"prefix", 0, 11}, {"n0", 0, 1}, {"n1", 0, 1}, {"n2", 0, 1}, {"n3", 0, 1}, {"n4", 1, 1}, {"nd", 1, 1}},
+				Thorough: []ParamRange{{"prefix", 0, 11}, {"n0", 0, 2}, {"n1", 0, 2}, {"n2", 0, 2}, {"n3", 0, 2}, {"n4", 0, 2}, {"nd", 1, 2}}, Reach: []string{"accepted", "rejected"}, Eager: true,
+				Filter: func(p map[string]int) bool { return p["n0"]+p["n1"]+p["n2"]+p["n3"]+p["n4"] <= 5 },
+				Desc: "composition: the real escapeList / escapeBranch / join / escapeAction / escapeText over a hand-built tree P T0 {{if}}T1{{else}}T2{{end}} T3 {{.}} T4 with symbolic ASCII texts; the assembled output of both branches has the same token stream for an inert and a symbolic data value"},
 		},
 		Probes: []ProbeSpec{
 			{Pkg: "template", Name: "vProbe_C01_escape", NArgs: 2, Alphabet: "<>/!-=\"' abdivscrptxm\t\n\f&;", MaxLen: 12, N: 3000, TestDir: "template",
